@@ -3,7 +3,7 @@
 A content-hash cache under /verif/.cache avoids recompiling unchanged inputs; the hash covers the source
 text, every header under include/awkward and the flags, so an edited tree always re-lowers.
 """
-import hashlib, os, subprocess, glob, functools, tempfile, shutil
+import hashlib, os, subprocess, glob, functools, tempfile, shutil, time
 
 REPO = os.environ.get('VERIF_REPO', '/repo')
 VERIF = os.path.dirname(os.path.dirname(os.path.abspath(__file__)))
@@ -129,15 +129,20 @@ def compile_driver(driver_cpp_text, repo_sources, sanitize=True, opt='-O1'):
     return out
 
 
-def clean_cache(max_mb=2000):
-    """drop oldest cache files beyond a size budget"""
+def clean_cache(max_mb=8000, keep_s=6 * 3600):
+    """drop the oldest cache files beyond a size budget; files used in the last hours are never dropped (another check may be linking them
+    right now - cache users refresh the time stamp of what they reuse)"""
     if not os.path.isdir(CACHE):
         return
     ents = []
+    now = time.time()
     for n in os.listdir(CACHE):
         p = os.path.join(CACHE, n)
         if os.path.isfile(p):
-            st = os.stat(p); ents.append((st.st_mtime, st.st_size, p))
+            st = os.stat(p)
+            if now - st.st_mtime < keep_s:
+                continue
+            ents.append((st.st_mtime, st.st_size, p))
     ents.sort(reverse=True)
     tot = 0
     for mt, sz, p in ents:
